@@ -94,7 +94,9 @@ func stuckPod(p *corev1.Pod, now time.Time) bool {
 
 type monRoll struct {
 	baseMon
-	lastOps map[string]time.Time // ERS -> start of last sync with pod ops and a successful status write
+	lastOps     map[string]time.Time // ERS -> start of last sync with pod ops and a successful status write
+	activeSince map[string]time.Time // ERS -> start of the first active-role sync after a recorded inactive one
+	inactive    map[string]bool      // ERS -> its last successfully recorded sync was not in the active role
 }
 
 func (*monRoll) Name() string { return "roll" }
@@ -111,6 +113,26 @@ func (m *monRoll) TaskEnd(s *Sim, t *Task) {
 	ru := v.EDS.Spec.Strategy.RollingUpdate
 	ann := v.EDS.Annotations
 	nT := len(f.targeted)
+	// when did this replica set (re)become active, as far as its own syncs could observe?
+	if m.activeSince == nil {
+		m.activeSince, m.inactive = map[string]time.Time{}, map[string]bool{}
+	}
+	ek := t.Key.String()
+	wroteStatus := false
+	for _, c := range v.StatusWrites {
+		if c.Kind == KERS && c.Applied() {
+			wroteStatus = true
+		}
+	}
+	if f.role == "active" {
+		if m.inactive[ek] {
+			m.activeSince[ek] = t.StartAt
+			m.inactive[ek] = false
+		}
+	} else if wroteStatus {
+		m.inactive[ek] = true
+		delete(m.activeSince, ek)
+	}
 
 	// ---- C04: confinement ----
 	switch f.role {
@@ -210,6 +232,16 @@ func (m *monRoll) TaskEnd(s *Sim, t *Task) {
 				el = t.StartAt.Sub(ac.LastTransitionTime.Time) + time.Second + absDur(time.Duration(s.W.Cfg.SkewSec)*time.Second)
 				if el < 0 {
 					el = 0
+				}
+				// the condition cannot have become true before the replica set became active again
+				// after a recorded inactive sync
+				if since, ok := m.activeSince[ek]; ok {
+					if obs := t.StartAt.Sub(since) + time.Second + absDur(time.Duration(s.W.Cfg.SkewSec)*time.Second); obs < el {
+						if obs+time.Second < el {
+							s.Probe("c09.condition-older-than-activation")
+						}
+						el = obs
+					}
 				}
 			}
 			limit := (1 + int(el/ru.SlowStartIntervalDuration.Duration)) * inc
